@@ -80,7 +80,7 @@ class Gen:
         for i in range(r.randint(0, 2)):
             name = "E%d" % i
             variants = []
-            for k in range(r.randint(2, 4)):
+            for k in range(r.choice([1, 2, 2, 3, 3, 4, 5])):
                 if r.random() < 0.4:
                     variants.append(("V%d" % k, []))
                 else:
